@@ -89,7 +89,10 @@ func (f *Frame) evalCall(st *State, call *ast.CallExpr) []Val {
 		f.c.dropped[key] = true
 		return f.havocResults(st, call)
 	}
-	if ct := f.c.specs.Contracts[key]; ct != nil && !(f.top && f.depth == 0 && false) {
+	if ct := f.c.specs.Contracts[key]; ct != nil {
+		if ct.Pure && len(ct.Ensures) == 0 && len(ct.Requires) == 0 {
+			return f.callPure(st, call, fn, recvExpr)
+		}
 		return f.callByContract(st, call, fn, ct, recvExpr)
 	}
 	if src := f.c.w.funcs[fn.Origin()]; src != nil && f.inlineable(src) {
@@ -435,7 +438,7 @@ func (f *Frame) writeBackSlice(st *State, e ast.Expr, nv Val) {
 		}
 		if _, ok := base.Ty.Underlying().(*types.Array); ok {
 			so := f.c.sorts.SortOf(nv.Ty)
-			f.assign(st, x.X, Val{T: fmt.Sprintf("(%s.arr %s)", so, nv.T), Ty: base.Ty})
+			f.assign(st, x.X, f.fromArr(st, fmt.Sprintf("(%s.arr %s)", so, nv.T), base.Ty))
 			return
 		}
 		f.unsupported(e, "copy into slice of %v", base.Ty)
@@ -619,12 +622,35 @@ func (f *Frame) callByContract(st *State, call *ast.CallExpr, fn *types.Func, ct
 	}
 	var results []Val
 	osig := fn.Origin().Type().(*types.Signature)
+	var pureRes []Val
+	if ct.Pure {
+		// pure function with a contract: results are uninterpreted applications, constrained by ensures
+		func() {
+			defer f.specGuard(call, "pure call "+ct.Name)
+			var recv *Val
+			rest := args
+			if sig.Recv() != nil && recvExpr != nil {
+				recv = &args[0].val
+				rest = args[1:]
+			}
+			var vals []Val
+			for _, a := range rest {
+				vals = append(vals, a.val)
+			}
+			pureRes = f.pureApp(st, fn, recv, vals)
+		}()
+	}
 	for i := 0; i < sig.Results().Len(); i++ {
 		rt := f.typ(sig.Results().At(i).Type())
 		if len(tsub) > 0 {
 			rt = substType(osig.Results().At(i).Type(), tsub)
 		}
-		r := f.havoc(st, "r_"+fn.Name(), rt)
+		var r Val
+		if pureRes != nil {
+			r = pureRes[i]
+		} else {
+			r = f.havoc(st, "r_"+fn.Name(), rt)
+		}
 		results = append(results, r)
 		post.names[fmt.Sprintf("r%d", i)] = r
 		if n := osig.Results().At(i).Name(); n != "" && n != "_" {
@@ -864,6 +890,9 @@ func (f *Frame) initResults(st *State) {
 // loopSpecEnv exposes the variables in scope (by name) to loop invariants and in-body assertions.
 func (f *Frame) loopSpecEnv(st *State) *SpecEnv {
 	env := &SpecEnv{names: map[string]Val{}, pkg: f.fn.Pkg.Types, typeArgs: f.typeArgNames(), st: st}
+	if f.contract != nil {
+		env.macros = f.contract.macros()
+	}
 	var objs []types.Object
 	for o := range st.env {
 		objs = append(objs, o)
